@@ -21,6 +21,7 @@ from ..schema import (
 from ..schema.scalars import MAX_INT, MIN_INT, SPECIFIED_SCALAR_TYPES
 
 
+_NAME_RE = re.compile(r"[_a-zA-Z][_a-zA-Z0-9]*")
 _INT_RE = re.compile(r"-?(0|[1-9][0-9]*)")
 
 
@@ -160,4 +161,38 @@ def _scalar_node_from_value(
 
         return _ast.StringValue(value=scalar_value)
 
+    if (
+        isinstance(input_type, ScalarType)
+        and input_type not in SPECIFIED_SCALAR_TYPES
+    ):
+        # Custom scalars can hold structured (JSON like) values.
+        if isinstance(scalar_value, dict):
+            if not all(
+                isinstance(key, str) and _NAME_RE.fullmatch(key)
+                for key in scalar_value
+            ):
+                raise ValueError()
+            return _ast.ObjectValue(
+                fields=[
+                    _ast.ObjectField(
+                        name=_ast.Name(value=key),
+                        value=_custom_scalar_entry(input_type, entry),
+                    )
+                    for key, entry in scalar_value.items()
+                ]
+            )
+        elif isinstance(scalar_value, (list, tuple)):
+            return _ast.ListValue(
+                values=[
+                    _custom_scalar_entry(input_type, entry)
+                    for entry in scalar_value
+                ]
+            )
+
     raise ValueError()
+
+
+def _custom_scalar_entry(input_type: GraphQLType, entry: Any) -> _ast.Value:
+    if entry is None:
+        return _ast.NullValue()
+    return _scalar_node_from_value(input_type, entry)
